@@ -121,6 +121,9 @@ pub enum Op {
     DecBy { slot: Slot, all: bool },
     /// reposition_liquidity_v2 to the other valid range signed by the delegate
     RepositionBy { slot: Slot },
+    /// close_position (the instruction for NFT positions) naming a BUNDLED position, the bundle mint and the bundle token account:
+    /// never enabled — it would burn the bundle token and close the account without clearing the bundle's bitmap bit
+    ClosePlainOnBundled { slot: Slot },
 }
 impl Op {
     fn slot(&self) -> Option<Slot> {
@@ -139,7 +142,8 @@ impl Op {
             | Op::Reposition { slot, .. }
             | Op::Approve { slot }
             | Op::DecBy { slot, .. }
-            | Op::RepositionBy { slot } => Some(*slot),
+            | Op::RepositionBy { slot }
+            | Op::ClosePlainOnBundled { slot } => Some(*slot),
             Op::SwapToEarn | Op::DeleteBundle => None,
         }
     }
@@ -168,6 +172,7 @@ impl Op {
             Op::Approve { .. } => "token_approve_delegate",
             Op::DecBy { .. } => "decrease_liquidity_by_delegate",
             Op::RepositionBy { .. } => "reposition_liquidity_v2_by_delegate",
+            Op::ClosePlainOnBundled { .. } => "close_position_on_bundled_position",
         }
     }
 }
@@ -377,6 +382,7 @@ impl<'a> LifeModel<'a> {
             Op::TransferLocked { .. } => yes(g.open && g.locked, "transfer_locked_position only for locked positions"),
             Op::DeleteBundle => yes(s.bundle_alive && s.b.values().all(|p| !p.open), "delete iff the bundle exists and no bundled position is open"),
             Op::Approve { .. } => Expect { enabled: None, why: String::new(), open: None },
+            Op::ClosePlainOnBundled { .. } => yes(false, "bundled positions are closed only by close_bundled_position (which clears the bitmap bit)"),
             Op::DecBy { slot, .. } => yes(g.open && !g.locked && self.delegated(s, *slot), "liquidity can be removed by a one-token delegate iff the position is open and not locked"),
             Op::RepositionBy { slot } => yes(g.open && !g.locked && self.delegated(s, *slot), "a one-token delegate can reposition iff the position is open and not locked"),
         }
@@ -475,6 +481,10 @@ impl<'a> LifeModel<'a> {
                 let liq = self.account(s, *slot).map(|a| a.liquidity).unwrap_or(0);
                 let amt = (if *all { liq } else { liq / 2 }).max(1);
                 svm::process(&mut l, &world::ix_decrease(&self.posref(s, *slot), &w.delegate, amt, 0, 0, *all))
+            }
+            Op::ClosePlainOnBundled { slot } => {
+                let pos = self.posref(s, *slot);
+                svm::process(&mut l, &world::ix_close_position(&pos, pos.owner, w.receiver))
             }
             Op::RepositionBy { slot } => {
                 let (lo, up) = self.target(s.g(*slot), ResetTo::NewValid);
@@ -670,6 +680,7 @@ impl<'a> LifeModel<'a> {
                 }
             }
             Op::SwapToEarn | Op::Update { .. } | Op::Approve { .. } => {}
+            Op::ClosePlainOnBundled { .. } => unreachable!("never enabled: a success is reported before the machine update"),
         }
         // ---- frame: no other position account is touched by a position-targeted instruction
         for sl in &self.slots {
@@ -865,6 +876,9 @@ impl<'a> Model for LifeModel<'a> {
                     v.push(Op::CollectReward { slot });
                 }
                 v.push(Op::Close { slot });
+                if matches!(slot, Slot::B(_)) {
+                    v.push(Op::ClosePlainOnBundled { slot });
+                }
                 v.push(Op::Reset { slot, to: ResetTo::NewValid });
                 v.push(Op::Reset { slot, to: ResetTo::Same });
                 v.push(Op::ResetForeign { slot });
@@ -1044,6 +1058,7 @@ pub fn run(ctx: &Ctx) -> Report {
     r.guard("sentinel_open_price_exactly_on_tick", a(&stats.sentinel_open_on_tick));
     r.guard("locked_increase_ok", a(&stats.locked_inc_ok));
     r.guard("locked_collect_ok", a(&stats.locked_collect_ok));
+    r.guard("close_position_on_bundled_position_refused", g("close_position_on_bundled_position:fail"));
     r.guard("locked_decrease_refused", a(&stats.locked_dec_refused));
     r.guard("locked_delegate_decrease_or_reposition_refused", a(&stats.locked_delegate_refused));
     r.guard("decrease_liquidity_by_delegate_ok", g("decrease_liquidity_by_delegate:ok"));
